@@ -434,6 +434,10 @@ class Interp:
             if e.id in ('tuple', 'str', 'int', 'list', 'dict', 'bytes', 'set', 'frozenset') or (e.id[:1].isupper() and e.id not in env):
                 return ('class', e.id)
             raise AnalysisError('heap model: unbound name %s' % e.id)
+        if isinstance(e, ast.Attribute) and isinstance(e.value, ast.Name) and e.value.id == 'string' and 'string' not in env:
+            from .consteval import _STRING_CONSTS
+            if e.attr in _STRING_CONSTS:
+                return _STRING_CONSTS[e.attr]
         if isinstance(e, ast.Attribute) and isinstance(e.value, ast.Name) and e.value.id == 're' and 're' not in env:
             from .core import RE_FLAGS
             if e.attr in RE_FLAGS:
@@ -453,6 +457,8 @@ class Interp:
                     if cv is not None:
                         return cv
                     raise AnalysisError('heap model: %s.%s not found' % (base[1], e.attr))
+                if any(norm(d) == 'classmethod' for d in fn.node.decorator_list):
+                    return Closure(fn.node, {}, ('class', base[1]), fn.cls)
                 return Closure(fn.node, {}, None, fn.cls)
             if isinstance(base, tuple) and base and base[0] == 'regex':
                 return ('regexmethod', base, e.attr)
@@ -531,6 +537,9 @@ class Interp:
             if isinstance(l, (SInt, int)) and isinstance(r, (SInt, int)):
                 l2 = l if isinstance(l, SInt) else SInt(l)
                 return l2 + r if isinstance(e.op, ast.Add) else l2 - r
+            if isinstance(e.op, ast.Add) and (h.is_list(l) or isinstance(l, (list, tuple))) and (h.is_list(r) or isinstance(r, (list, tuple))):
+                items = self.seq(l) + self.seq(r)
+                return tuple(items) if isinstance(l, tuple) and isinstance(r, tuple) else h.new_list(items)
         if isinstance(e, ast.BinOp) and isinstance(e.op, ast.Mod):
             l, r = self.ev(e.left, env, cls), self.ev(e.right, env, cls)
             if isinstance(l, str):
@@ -611,8 +620,52 @@ class Interp:
     def ev_call(self, e, env, cls):
         h = self.h
         fn = e.func
+        if isinstance(fn, ast.Name) and fn.id in ('any', 'all') and fn.id not in env and len(e.args) == 1 and isinstance(e.args[0], (ast.GeneratorExp, ast.ListComp)) \
+                and len(e.args[0].generators) == 1 and not e.args[0].generators[0].ifs and isinstance(e.args[0].generators[0].target, ast.Name):
+            g_ = e.args[0].generators[0]
+            subject = self.ev(g_.iter, env, cls)
+            if isinstance(subject, SStr) and subject.concrete() is None:
+                # a per-character predicate: evaluated on every symbol of the alphabet, then decided as a language question
+                a_ = symstr.alpha()
+                mask = 0
+                for i_, ch in enumerate(a_.syms):
+                    env2 = dict(env)
+                    env2[g_.target.id] = ch
+                    if self.truth(self.ev(e.args[0].elt, env2, cls)):
+                        mask |= 1 << i_
+                from . import rx as _rx
+                if fn.id == 'any':
+                    lang = _rx.from_function(a_, [], 0, lambda q, sym: 1 if (q == 1 or mask >> sym & 1) else 0, lambda q: q == 1)
+                else:
+                    lang = _rx.from_function(a_, [], 0, lambda q, sym: 1 if (q == 1 or not (mask >> sym & 1)) else 0, lambda q: q == 0)
+                return subject._decide(lang, '%s(... for %s in ...)' % (fn.id, g_.target.id))
         args = [self.ev(a, env, cls) for a in e.args]
         kwargs = {k.arg: self.ev(k.value, env, cls) for k in e.keywords}
+        if isinstance(fn, ast.Name) and fn.id in ('any', 'all') and fn.id not in env and len(args) == 1:
+            vals = [self.truth(v) for v in self.seq(args[0])]
+            return any(vals) if fn.id == 'any' else all(vals)
+        if isinstance(fn, ast.Name) and fn.id == 'range' and 'range' not in env and all(isinstance(a, int) for a in args) and 1 <= len(args) <= 3:
+            r_ = range(*args)
+            if len(r_) > 10000:
+                raise AnalysisError('heap model: range too large')
+            return list(r_)
+        if isinstance(fn, ast.Name) and fn.id == 'max' and 'max' not in env and len(args) >= 1 and not kwargs:
+            vals = self.seq(args[0]) if len(args) == 1 else list(args)
+            if vals and all(isinstance(v, int) for v in vals):
+                return max(vals)
+        if isinstance(fn, ast.Name) and fn.id == 'min' and 'min' not in env and len(args) >= 1 and not kwargs:
+            vals = self.seq(args[0]) if len(args) == 1 else list(args)
+            if vals and all(isinstance(v, int) for v in vals):
+                return min(vals)
+        if norm(fn) in ('itertools.islice', 'islice') and len(args) in (2, 3, 4) and 'islice' not in env:
+            items = self.seq(args[0])
+            sl = slice(*[a for a in args[1:]]) if len(args) > 2 else slice(args[1])
+            return items[sl]
+        if norm(fn) in ('itertools.chain', 'chain') and 'chain' not in env:
+            out_ = []
+            for a in args:
+                out_ += self.seq(a)
+            return out_
         if norm(fn) in ('functools.partial', 'partial') and args and 'partial' not in env:
             return ('partial', args[0], tuple(args[1:]), dict(kwargs))
         if isinstance(fn, ast.Name) and fn.id in h.hooks:
@@ -865,6 +918,9 @@ class Interp:
             hk = h.hooks.get('regex:%s.%s' % (rxv[1].split('.')[-1], meth)) or h.hooks.get('regex:%s.%s' % (rxv[1].split('.')[-1].lstrip('_'), meth))
             if hk is not None:
                 return hk(self, list(args), kwargs)
+            if meth in ('search', 'match', 'fullmatch') and args and isinstance(args[0], (str, SStr)):
+                ok = symstr.regex_test(rxv[2], rxv[3], meth, args[0])
+                return ('matchobj', rxv[1]) if ok else None
             if meth == 'split' and args and isinstance(args[0], (str, SStr)):
                 try:
                     return h.new_list(symstr.regex_split(rxv[2], rxv[3], args[0], args[1] if len(args) > 1 else kwargs.get('maxsplit', 0)))
